@@ -76,3 +76,73 @@ Proof.
   split; [exact sg_k4_simple|]. split; [exact sg_k4_positive|]. split; [exact sg_k4_roots_cover|].
   split; [exact sg_k4_run|reflexivity].
 Qed.
+
+(* ---- C02, third sentence: the sorted list of emitted cycle weights is that of EVERY minimum cycle basis ---
+   C02_weight_vector_unique   two minimum cycle bases of a simple graph with positive weights have the same
+                              multiset of cycle weights (no dimension theory: de Pina's exchange argument
+                              strengthened to an injection of positions + weight accounting, McbUniqueProofs.v)
+   C02_sorted_weights_unique  … i.e. their sorted weight lists (merge sort of the cycle weights) are EQUAL
+   C02_signed_sorted          the exact model mcb_sva_signed_Z answers SvaOk with a minimum cycle basis whose
+                              weight multiset / sorted weight list is that of every minimum cycle basis
+   C02_signed_sorted_any      the same, stated for any successful run *)
+From Coq Require Import Permutation.
+From Parmcb Require Import McbUniqueProofs.
+
+(* the injection behind it: one distinct, at-least-as-heavy member of any spanning family per cycle of a run *)
+Theorem C02_scheme_injection : depina_injection_stmt.
+Proof. exact depina_injection. Qed.
+Print Assumptions C02_scheme_injection.
+
+(* the weight vector of a minimum cycle basis is unique up to order *)
+Theorem C02_weight_vector_unique :
+  forall (g : graph) (wts : list Z) (B B' : list vec),
+    simple_graph g -> positive_weights g wts ->
+    min_cycle_basis g wts B -> min_cycle_basis g wts B' ->
+    Permutation (map (weight wts) B) (map (weight wts) B').
+Proof. exact mcb_weight_multiset_unique. Qed.
+Print Assumptions C02_weight_vector_unique.
+
+(* the sorted weight lists of two minimum cycle bases are equal *)
+Theorem C02_sorted_weights_unique :
+  forall (g : graph) (wts : list Z) (B B' : list vec),
+    simple_graph g -> positive_weights g wts ->
+    min_cycle_basis g wts B -> min_cycle_basis g wts B' ->
+    sorted_weights wts B = sorted_weights wts B'.
+Proof. exact mcb_sorted_weights_unique. Qed.
+Print Assumptions C02_sorted_weights_unique.
+
+(* the model of the code: the emitted cycles have the sorted weight list of every minimum cycle basis *)
+Theorem C02_signed_sorted :
+  forall (g : graph) (wts : list Z) (roots eord : list nat),
+    simple_graph g -> positive_weights g wts -> (forall v, v < nv g -> In v roots) ->
+    exists cycles total sup,
+      mcb_sva_signed_Z g wts roots eord = SvaOk cycles total sup
+      /\ min_cycle_basis g wts cycles /\ total = total_weight wts cycles
+      /\ forall B', min_cycle_basis g wts B' ->
+           Permutation (map (weight wts) cycles) (map (weight wts) B')
+           /\ sorted_weights wts cycles = sorted_weights wts B'.
+Proof. exact C02_signed_sorted_lemma. Qed.
+Print Assumptions C02_signed_sorted.
+
+(* the same for any successful run *)
+Theorem C02_signed_sorted_any :
+  forall (g : graph) (wts : list Z) (roots eord : list nat) cycles total sup,
+    simple_graph g -> positive_weights g wts -> (forall v, v < nv g -> In v roots) ->
+    mcb_sva_signed_Z g wts roots eord = SvaOk cycles total sup ->
+    forall B', min_cycle_basis g wts B' ->
+      Permutation (map (weight wts) cycles) (map (weight wts) B')
+      /\ sorted_weights wts cycles = sorted_weights wts B'.
+Proof. exact C02_signed_sorted_any_lemma. Qed.
+Print Assumptions C02_signed_sorted_any.
+
+(* non-vacuity: on K4 with unit weights the run of the real code emits three triangles, so EVERY minimum
+   cycle basis of K4 has the sorted weight list [3;3;3] *)
+Example C02_signed_sorted_nonvacuous :
+  sorted_weights sg_k4_wts [[0;1;3];[0;2;4];[1;2;5]] = [3; 3; 3]%Z /\
+  forall B', min_cycle_basis sg_k4 sg_k4_wts B' -> sorted_weights sg_k4_wts B' = [3; 3; 3]%Z.
+Proof.
+  split; [reflexivity|]. intros B' HB'.
+  destruct (C02_signed_sorted_any sg_k4 sg_k4_wts sg_k4_roots sg_k4_eord _ _ _
+              sg_k4_simple sg_k4_positive sg_k4_roots_cover sg_k4_run B' HB') as (_ & E).
+  rewrite <- E. reflexivity.
+Qed.
